@@ -1,0 +1,85 @@
+//go:build verif
+
+package mp4
+
+// Property C18, last sentence: "An AAC sample entry built from a configuration decodes back to that configuration".
+// The configuration travels as the byte string DecSpecificInfoDescriptor.DecConfig inside esds. What function-level contracts
+// reach: the constructors put the given bytes (by reference) into the descriptor tree with one-byte size fields; the
+// DecSpecificInfo descriptor encoder writes tag 5, the size bytes of ISO/IEC 14496-1 8.3.3 and exactly those bytes; the decoder
+// returns exactly the bytes that follow a one-byte size field. Encoder and decoder are stated against the same layout
+// (tag, dszByte size bytes, payload).
+
+// dszByte(size, s, j): byte j (0..s) of a size field of s+1 bytes: 7 bits per byte, most significant group first, bit 7 set on
+// all but the last byte.
+//@ spec dszByte(size uint64, s byte, j int) byte = (byte(size >> uint32(7*(int(s)-j))) & 0x7f) | ite(j < int(s), byte(0x80), byte(0))
+
+//@ func writeDescriptorSize
+//@   uses C17
+//@   assigns sw.(*bits.FixedSliceWriter).off, sw.(*bits.FixedSliceWriter).accError, sw.(*bits.FixedSliceWriter).n, sw.(*bits.FixedSliceWriter).v, sw.(*bits.FixedSliceWriter).buf[:], ghost(sw).tr
+//@   ensures swOKi(sw) && sw.(*bits.FixedSliceWriter).buf == old(sw.(*bits.FixedSliceWriter).buf)
+//@   ensures old(sw.(*bits.FixedSliceWriter).accError) != nil ==> sw.(*bits.FixedSliceWriter).accError != nil
+//@   ensures[C18] sw.(*bits.FixedSliceWriter).accError == nil && old(sw.(*bits.FixedSliceWriter).n) == 0 ==> sw.(*bits.FixedSliceWriter).n == 0 && sw.(*bits.FixedSliceWriter).off == old(sw.(*bits.FixedSliceWriter).off) + 1 + int(sizeFieldSizeMinus1)
+//@   ensures[C18] sw.(*bits.FixedSliceWriter).accError == nil && old(sw.(*bits.FixedSliceWriter).n) == 0 ==> forall j int :: 0 <= j && j <= int(sizeFieldSizeMinus1) ==> sw.(*bits.FixedSliceWriter).buf[old(sw.(*bits.FixedSliceWriter).off)+j] == dszByte(size, sizeFieldSizeMinus1, j)
+//@   ensures[C18] sw.(*bits.FixedSliceWriter).accError == nil && old(sw.(*bits.FixedSliceWriter).n) == 0 ==> forall k int :: (k < old(sw.(*bits.FixedSliceWriter).off) || k >= old(sw.(*bits.FixedSliceWriter).off) + 1 + int(sizeFieldSizeMinus1)) ==> sw.(*bits.FixedSliceWriter).buf[k] == old(sw.(*bits.FixedSliceWriter).buf[k])
+//@   loop 1 invariant -1 <= pos && pos <= int(sizeFieldSizeMinus1) && swOKi(sw) && sw.(*bits.FixedSliceWriter).buf == old(sw.(*bits.FixedSliceWriter).buf) && (old(sw.(*bits.FixedSliceWriter).accError) != nil ==> sw.(*bits.FixedSliceWriter).accError != nil)
+//@   loop 1 invariant sw.(*bits.FixedSliceWriter).accError == nil && old(sw.(*bits.FixedSliceWriter).n) == 0 ==> sw.(*bits.FixedSliceWriter).n == 0 && sw.(*bits.FixedSliceWriter).off == old(sw.(*bits.FixedSliceWriter).off) + int(sizeFieldSizeMinus1) - pos
+//@   loop 1 invariant sw.(*bits.FixedSliceWriter).accError == nil && old(sw.(*bits.FixedSliceWriter).n) == 0 ==> forall j int :: 0 <= j && j < int(sizeFieldSizeMinus1) - pos ==> sw.(*bits.FixedSliceWriter).buf[old(sw.(*bits.FixedSliceWriter).off)+j] == dszByte(size, sizeFieldSizeMinus1, j)
+//@   loop 1 invariant sw.(*bits.FixedSliceWriter).accError == nil && old(sw.(*bits.FixedSliceWriter).n) == 0 ==> forall k int :: (k < old(sw.(*bits.FixedSliceWriter).off) || k >= old(sw.(*bits.FixedSliceWriter).off) + 1 + int(sizeFieldSizeMinus1)) ==> sw.(*bits.FixedSliceWriter).buf[k] == old(sw.(*bits.FixedSliceWriter).buf[k])
+//@   loop 1 decreases pos + 1
+
+// dszVal(d, p, k): the value of a size field whose bytes d[p..p+k] carry 7 bits each, most significant group first
+// (ISO/IEC 14496-1 8.3.3). readSizeSize returns it for the k continuation bytes (bit 7 set) it finds, without any length limit
+// (k is counted modulo 256 in the result, as in the code).
+//@ spec rec dszVal(d []byte, p int, k int) uint64 = ite(k <= 0, uint64(d[p] & 0x7f), dszVal(d, p, k-1)<<7 | uint64(d[p+k] & 0x7f))
+
+//@ func readSizeSize
+//@   ensures srOKi(sr) && srSame(sr.(*bits.FixedSliceReader), old(sr.(*bits.FixedSliceReader).slice), old(sr.(*bits.FixedSliceReader).len))
+//@   ensures err == nil ==> sr.(*bits.FixedSliceReader).err == nil && sr.(*bits.FixedSliceReader).pos > old(sr.(*bits.FixedSliceReader).pos)
+//@   ensures[C18] err == nil ==> sizeFieldSizeMinus1 == byte(sr.(*bits.FixedSliceReader).pos - old(sr.(*bits.FixedSliceReader).pos) - 1) && size == dszVal(sr.(*bits.FixedSliceReader).slice, old(sr.(*bits.FixedSliceReader).pos), sr.(*bits.FixedSliceReader).pos - old(sr.(*bits.FixedSliceReader).pos) - 1)
+//@   ensures[C18] err == nil ==> sr.(*bits.FixedSliceReader).slice[sr.(*bits.FixedSliceReader).pos-1] & 0x80 == 0
+//@   ensures[C18] err == nil ==> forall j int :: old(sr.(*bits.FixedSliceReader).pos) <= j && j < sr.(*bits.FixedSliceReader).pos - 1 ==> sr.(*bits.FixedSliceReader).slice[j] & 0x80 != 0
+//@   ensures[C18] old(sr.(*bits.FixedSliceReader).err) == nil && old(sr.(*bits.FixedSliceReader).pos) < sr.(*bits.FixedSliceReader).len && sr.(*bits.FixedSliceReader).slice[old(sr.(*bits.FixedSliceReader).pos)] & 0x80 == 0 ==> err == nil && sr.(*bits.FixedSliceReader).pos == old(sr.(*bits.FixedSliceReader).pos) + 1
+//@   loop 1 invariant srOKi(sr) && srSame(sr.(*bits.FixedSliceReader), old(sr.(*bits.FixedSliceReader).slice), old(sr.(*bits.FixedSliceReader).len))
+//@   loop 1 invariant sr.(*bits.FixedSliceReader).err != nil ==> tmp == 0
+//@   loop 1 invariant sr.(*bits.FixedSliceReader).err == nil ==> old(sr.(*bits.FixedSliceReader).err) == nil && sr.(*bits.FixedSliceReader).pos > old(sr.(*bits.FixedSliceReader).pos) && tmp == sr.(*bits.FixedSliceReader).slice[sr.(*bits.FixedSliceReader).pos-1]
+//@   loop 1 invariant sr.(*bits.FixedSliceReader).err == nil ==> sizeFieldSizeMinus1 == byte(sr.(*bits.FixedSliceReader).pos - old(sr.(*bits.FixedSliceReader).pos) - 1) && sizeOfInstance == dszVal(sr.(*bits.FixedSliceReader).slice, old(sr.(*bits.FixedSliceReader).pos), sr.(*bits.FixedSliceReader).pos - old(sr.(*bits.FixedSliceReader).pos) - 1)
+//@   loop 1 invariant sr.(*bits.FixedSliceReader).err == nil ==> forall j int :: old(sr.(*bits.FixedSliceReader).pos) <= j && j < sr.(*bits.FixedSliceReader).pos - 1 ==> sr.(*bits.FixedSliceReader).slice[j] & 0x80 != 0
+//@   loop 1 invariant old(sr.(*bits.FixedSliceReader).err) == nil && old(sr.(*bits.FixedSliceReader).pos) < sr.(*bits.FixedSliceReader).len && sr.(*bits.FixedSliceReader).slice[old(sr.(*bits.FixedSliceReader).pos)] & 0x80 == 0 ==> sr.(*bits.FixedSliceReader).err == nil && sr.(*bits.FixedSliceReader).pos == old(sr.(*bits.FixedSliceReader).pos) + 1
+//@   loop 1 decreases sr.(*bits.FixedSliceReader).len - sr.(*bits.FixedSliceReader).pos, ite(sr.(*bits.FixedSliceReader).err == nil, 1, 0)
+
+// Constructors used by TrakBox.SetAACDescriptor: the configuration bytes become DecSpecificInfo.DecConfig (same slice), all
+// three descriptors get one-byte size fields, the decoder configuration announces MPEG-4 audio (0x40, stream type 0x15).
+//@ func CreateESDescriptor
+//@   ensures[C18] result.DecConfigDescriptor != nil && result.DecConfigDescriptor.DecSpecificInfo != nil && result.SLConfigDescriptor != nil
+//@   ensures[C18] result.DecConfigDescriptor.DecSpecificInfo.DecConfig == decConfig && result.DecConfigDescriptor.DecSpecificInfo.sizeFieldSizeMinus1 == 0
+//@   ensures[C18] result.DecConfigDescriptor.ObjectType == 0x40 && result.DecConfigDescriptor.StreamType == 0x15 && result.DecConfigDescriptor.sizeFieldSizeMinus1 == 0 && result.sizeFieldSizeMinus1 == 0 && result.EsID == 1
+//@   ensures[C18] len(result.OtherDescriptors) == 0 && len(result.UnknownData) == 0 && len(result.DecConfigDescriptor.OtherDescriptors) == 0 && len(result.DecConfigDescriptor.UnknownData) == 0
+
+//@ func CreateEsdsBox
+//@   ensures[C18] result != nil && result.ESDescriptor.DecConfigDescriptor != nil && result.ESDescriptor.DecConfigDescriptor.DecSpecificInfo != nil
+//@   ensures[C18] result.ESDescriptor.DecConfigDescriptor.DecSpecificInfo.DecConfig == decConfig && result.ESDescriptor.DecConfigDescriptor.DecSpecificInfo.sizeFieldSizeMinus1 == 0
+//@   ensures[C18] result.ESDescriptor.DecConfigDescriptor.ObjectType == 0x40 && result.ESDescriptor.DecConfigDescriptor.StreamType == 0x15
+
+// DecSpecificInfo descriptor at byte o of b: tag 5, size bytes, payload.
+//@ func (*DecSpecificInfoDescriptor).EncodeSW
+//@   uses C17
+//@   assigns sw.(*bits.FixedSliceWriter).off, sw.(*bits.FixedSliceWriter).accError, sw.(*bits.FixedSliceWriter).n, sw.(*bits.FixedSliceWriter).v, sw.(*bits.FixedSliceWriter).buf[:], ghost(sw).tr
+//@   requires swOKi(sw) && d != nil
+//@   ensures swOKi(sw) && sw.(*bits.FixedSliceWriter).buf == old(sw.(*bits.FixedSliceWriter).buf)
+//@   ensures result == nil ==> sw.(*bits.FixedSliceWriter).accError == nil && old(sw.(*bits.FixedSliceWriter).accError) == nil
+//@   ensures[C18] result == nil && old(sw.(*bits.FixedSliceWriter).n) == 0 ==> sw.(*bits.FixedSliceWriter).off == old(sw.(*bits.FixedSliceWriter).off) + 2 + int(d.sizeFieldSizeMinus1) + len(d.DecConfig)
+//@   ensures[C18] result == nil && old(sw.(*bits.FixedSliceWriter).n) == 0 ==> sw.(*bits.FixedSliceWriter).buf[old(sw.(*bits.FixedSliceWriter).off)] == 5
+//@   ensures[C18] result == nil && old(sw.(*bits.FixedSliceWriter).n) == 0 ==> forall j int :: 0 <= j && j <= int(d.sizeFieldSizeMinus1) ==> sw.(*bits.FixedSliceWriter).buf[old(sw.(*bits.FixedSliceWriter).off)+1+j] == dszByte(uint64(len(d.DecConfig)), d.sizeFieldSizeMinus1, j)
+//@   ensures[C18] result == nil && old(sw.(*bits.FixedSliceWriter).n) == 0 && ref(d.DecConfig) != ref(sw.(*bits.FixedSliceWriter).buf) ==> forall j int :: 0 <= j && j < len(d.DecConfig) ==> sw.(*bits.FixedSliceWriter).buf[old(sw.(*bits.FixedSliceWriter).off)+2+int(d.sizeFieldSizeMinus1)+j] == old(d.DecConfig[j])
+// Link to the decoder's parse function for the one-byte size form (what CreateESDescriptor builds; payload shorter than 128 bytes):
+// the size byte written has bit 7 clear and its value under dszVal is the payload length.
+//@   ensures[C18] result == nil && old(sw.(*bits.FixedSliceWriter).n) == 0 && d.sizeFieldSizeMinus1 == 0 && len(d.DecConfig) < 128 ==> sw.(*bits.FixedSliceWriter).buf[old(sw.(*bits.FixedSliceWriter).off)+1] < 0x80 && dszVal(sw.(*bits.FixedSliceWriter).buf, old(sw.(*bits.FixedSliceWriter).off)+1, 0) == uint64(len(d.DecConfig))
+
+// Decoder: after the tag byte 5 has been consumed, the descriptor's payload is exactly the bytes that follow the size
+// field (result.DecConfig is that sub-slice of the input, its length is the value dszVal of the size field). Success is guaranteed for a one-byte size field that fits.
+//@ func DecodeDecSpecificInfoDescriptor
+//@   ensures[C18] result1 == nil ==> typeis(result0, "*DecSpecificInfoDescriptor") && result0.(*DecSpecificInfoDescriptor) != nil && sr.(*bits.FixedSliceReader).err == nil && tag == 5
+//@   ensures[C18] result1 == nil ==> sr.(*bits.FixedSliceReader).pos - len(result0.(*DecSpecificInfoDescriptor).DecConfig) - old(sr.(*bits.FixedSliceReader).pos) - 1 >= 0 && result0.(*DecSpecificInfoDescriptor).sizeFieldSizeMinus1 == byte(sr.(*bits.FixedSliceReader).pos - len(result0.(*DecSpecificInfoDescriptor).DecConfig) - old(sr.(*bits.FixedSliceReader).pos) - 1)
+//@   ensures[C18] result1 == nil ==> uint64(len(result0.(*DecSpecificInfoDescriptor).DecConfig)) == dszVal(sr.(*bits.FixedSliceReader).slice, old(sr.(*bits.FixedSliceReader).pos), sr.(*bits.FixedSliceReader).pos - len(result0.(*DecSpecificInfoDescriptor).DecConfig) - old(sr.(*bits.FixedSliceReader).pos) - 1)
+//@   ensures[C18] result1 == nil ==> result0.(*DecSpecificInfoDescriptor).DecConfig == sr.(*bits.FixedSliceReader).slice[sr.(*bits.FixedSliceReader).pos - len(result0.(*DecSpecificInfoDescriptor).DecConfig) : sr.(*bits.FixedSliceReader).pos]
+//@   ensures[C18] old(sr.(*bits.FixedSliceReader).err) == nil && tag == 5 && old(sr.(*bits.FixedSliceReader).pos) < sr.(*bits.FixedSliceReader).len && sr.(*bits.FixedSliceReader).slice[old(sr.(*bits.FixedSliceReader).pos)] < 0x80 && 2 + int(sr.(*bits.FixedSliceReader).slice[old(sr.(*bits.FixedSliceReader).pos)]) <= maxNrBytes && old(sr.(*bits.FixedSliceReader).pos) + 1 + int(sr.(*bits.FixedSliceReader).slice[old(sr.(*bits.FixedSliceReader).pos)]) <= sr.(*bits.FixedSliceReader).len ==> result1 == nil && result0.(*DecSpecificInfoDescriptor).sizeFieldSizeMinus1 == 0 && len(result0.(*DecSpecificInfoDescriptor).DecConfig) == int(sr.(*bits.FixedSliceReader).slice[old(sr.(*bits.FixedSliceReader).pos)])
